@@ -13,7 +13,7 @@ type Fault struct {
 // FaultOps lists all operators. Each one breaks a MUST rule of the specification and is
 // built so that the result is invalid whatever the surrounding document looks like.
 var FaultOps = []string{
-	"bad-date", "text-after-headline", "bad-should-total", "indented-headline",
+	"bad-date", "text-after-headline", "bad-should-total", "indented-headline", "glued-should-total", "missing-blank-between-records",
 	"rsum-leading-blank", "entry-indent-1", "entry-indent-plus-1", "indent-style-switch",
 	"unindented-entry", "bad-time", "bad-duration", "range-missing-end", "range-bad-dash",
 	"range-glued-garbage", "reversed-range", "shifted-placeholder", "second-open-range", "range-turned-open",
@@ -128,6 +128,37 @@ func ApplyFault(d Doc, l Layout, lines []LineInfo, f Fault) ([]LineInfo, int, bo
 		out := clone(lines)
 		out[i].Text = d.Records[lines[i].Rec].Date.Lit() + " " + sel(badShoulds, f.Var)
 		return out, i, true
+	case "glued-should-total":
+		// the should-total MUST be separated from the date by a space
+		c := byRole(RoleHead)
+		if len(c) == 0 {
+			return nil, 0, false
+		}
+		i := sel(c, f.Sel)
+		out := clone(lines)
+		r := d.Records[lines[i].Rec]
+		st := "(8h!)"
+		if r.Should != nil {
+			st = "(" + r.Should.Lit + "!)"
+		}
+		out[i].Text = r.Date.Lit() + sel([]string{"", "", ".", "_"}, f.Var) + st
+		return out, i, true
+	case "missing-blank-between-records":
+		// a record that has entries is directly followed by the next headline
+		c := indices(lines, func(i int, li LineInfo) bool {
+			return li.Role == RoleHead && li.Rec > 0 && len(d.Records[li.Rec-1].Entries) > 0
+		})
+		if len(c) == 0 {
+			return nil, 0, false
+		}
+		i := sel(c, f.Sel)
+		// remove the blank lines in front of headline i
+		start := i
+		for start > 0 && lines[start-1].Role == RoleBlank {
+			start--
+		}
+		out := append(clone(lines[:start]), lines[i:]...)
+		return out, start, true
 	case "indented-headline":
 		c := byRole(RoleHead)
 		if len(c) == 0 {
